@@ -749,11 +749,23 @@ class Reader:
                 this = ('tmp:' + e['cls'],)
             out = []
             params = callee.get('params', [])
+            # out-parameters bound to a local (or a member of a local struct) of the caller: copy-in / copy-out
+            writeback = []
+            for i_, a_ in enumerate(args):
+                p_ = params[i_] if i_ < len(params) else None
+                if p_ is not None and p_['t'].get('ref') and not p_['t'].get('const'):
+                    lv_ = self.lvalue(a_, st, ctx)
+                    if lv_ and lv_[0] in ('local', 'localmember'):
+                        writeback.append((lv_, p_['id']))
             try:
                 for (vals, s2) in self.evs_args(args, params, st, ctx):
                     for fs in self.run(callee, vals, this, s2.copy(), ctx['depth'] + 1):
                         r = fs.ret
                         fs.returned, fs.ret = False, None
+                        for (lv_, pid_) in writeback:
+                            v_ = (fs.callee_locals or {}).get(pid_)
+                            if v_ is not None:
+                                self.assign(lv_, v_, fs)
                         if k == 'Construct':
                             r = {p[-1]: v for p, v in fs.fields.items() if p[:len(this)] == this and len(p) == len(this) + 1}
                         out.append((r, fs))
